@@ -37,11 +37,11 @@ var c16Exported = []struct {
 	layout             string
 	date, clock, micro bool
 }{
-	{"15:04:05Z07:00", false, true, false},                  // TimeNoNano
-	{"15:04:05.000000Z07:00", false, true, true},            // TimeNano
-	{"2006-01-0215:04:05Z07:00", true, true, false},         // DateTime
-	{"2006-01-02T15:04:05.000000Z07:00", true, true, true},  // RFC3339Nano
-	{"2006-01-02", true, false, false},                      // date only
+	{"15:04:05Z07:00", false, true, false},                 // TimeNoNano
+	{"15:04:05.000000Z07:00", false, true, true},           // TimeNano
+	{"2006-01-0215:04:05Z07:00", true, true, false},        // DateTime
+	{"2006-01-02T15:04:05.000000Z07:00", true, true, true}, // RFC3339Nano
+	{"2006-01-02", true, false, false},                     // date only
 }
 
 func (p *C16) Gen(seed uint64, i int, tier string) *scen.Scenario {
